@@ -221,10 +221,14 @@ Definition read_calls (content : list (list Z)) : list (Z * Z) :=
   flat_map (fun p => map (fun i => (i, fst p)) (snd p)) (enumerate content).
 
 Definition poscar_read (g : Z -> bool) (content : list (list Z)) (s : sc) : sc * outcome :=
-  let (s1, o1) := setocc_all g s (map (fun n => (n, -1)) (zrange (length (occ s)))) in
-  match o1 with
-  | OK => setocc_all g s1 (read_calls content)
-  | _ => (s1, o1)
+  match content with
+  | [] => (s, IndexError)          (* empty species line: chemlist[0] fails before anything is changed *)
+  | _ =>
+    let (s1, o1) := setocc_all g s (map (fun n => (n, -1)) (zrange (length (occ s)))) in
+    match o1 with
+    | OK => setocc_all g s1 (read_calls content)
+    | _ => (s1, o1)
+    end
   end.
 
 (* ---- the machine: the object being edited, a second object (the original of the last copy),
